@@ -27,12 +27,18 @@ theorem surjectionproof_generate_sites : Facts.surjectionproof_generate = [
     ⟨.memcmp_var, 1, true, none⟩
   ] := by decide
 
-def all : List CallFact := Facts.surjectionproof_verify ++ Facts.surjectionproof_generate
+/-- `secp256k1_surjection_genrand`: its fallible-primitive call sites are exactly these, each with its result / overflow flag
+    consumed as listed. -/
+theorem surjection_genrand_sites : Facts.surjection_genrand = [
+    ⟨.scalar_set_b32, 1, false, some true⟩
+  ] := by decide
+
+def all : List CallFact := Facts.surjectionproof_verify ++ Facts.surjectionproof_generate ++ Facts.surjection_genrand
 
 /-- No overflow flag written by a scalar decoding in these functions is ignored (overwritten or never read). -/
 theorem no_flag_dropped : ∀ f ∈ all, f.flag ≠ some false := by decide
 
 /-- non-vacuity: the regenerated fact lists are not empty -/
-example : all.length = 6 := by decide
+example : all.length = 7 := by decide
 
 end SecpZkp.Props.C11_guards
